@@ -112,3 +112,45 @@ def run(rep, f, c, rule):
                    'state invariant %s == %s ==> %s is not preserved: %s' % (A, a, {k: hex(v) for k, v in cons.items()}, bad[0] if bad else ''),
                    bad[1] if bad else site, {'paths': len(ps)}, c)
     rep.floor(rule, 'bodies checked against state invariants', n, 2, c)
+
+
+def escape_reset(rep, f, c, rule):
+    """ISO-2022-JP: `lead` holds the escape intermediate ($ or () while the decoder is in the Escape state.  Leaving that state by
+    RECOGNISING the sequence (the new decoder state is not the saved output_state, which is the not-recognised exit that keeps the
+    byte for re-processing) must clear it on every path to the exit of the iteration, early returns included: in_neutral_state()
+    and the buffer-length queries read `lead` (C07, C19).  Instance confirmed by reading; frozen here with its reason."""
+    n = 0
+    for name, b in sorted(f.bodies.items()):
+        if b.raw.get('impl_self') != 'iso_2022_jp::Iso2022JpDecoder' or not name.endswith(('::decode_to_utf8_raw', '::decode_to_utf16_raw')):
+            continue
+        site = sp_str(b.raw['span'])
+        heads = loop_heads(b)
+        try:
+            ps = []
+            for H in heads:
+                ps += [summarize(b, blks, end) for blks, end in enumerate_block_paths(b, H, stop=[h for h in heads if h != H], limit=60000)]
+        except OverflowError as e:
+            rep.undecidable(rule, name, str(e), site, c)
+            continue
+        bad = None
+        k = 0
+        for p in ps:
+            if p.end[0] == 'diverge':
+                continue
+            in_escape = any(e[1][0] == 'variant' and e[1][1] == fld('decoder_state') and e[2] == 'Escape' for e in p.conds())
+            if not in_escape:
+                continue
+            S = final_value(p, 'decoder_state')
+            if S is None or S == fld('output_state') or (S[0] == 'agg' and variant_name(S) in ('Escape', 'EscapeStart')):
+                continue
+            k += 1
+            fl = final_value(p, 'lead')
+            if not (fl is not None and fl[0] == 'c' and fl[1] == 0):
+                bad = ('the escape sequence is recognised (decoder_state := %s) but lead %s on the path ending here' %
+                       (expr_str(S, b)[:40], 'is left holding the intermediate byte' if fl is None else 'ends as ' + expr_str(fl, b)[:30]),
+                       sp_str(b.blocks[p.blocks[-1]]['tsp']))
+                break
+        n += k
+        rep.ob(rule + '.escape-reset', name, bad is None and k >= 1,
+               'ISO-2022-JP: %s' % (bad[0] if bad else 'no path leaving the Escape state by recognition was found'), bad[1] if bad else site, {'paths': k}, c)
+    return n
